@@ -23,7 +23,7 @@ type c07Input struct {
 	Stack   string `json:"stack"`
 	Suite   uint16 `json:"suite"`
 	Policy  int    `json:"policy"`
-	Chain   string `json:"chain"`             // none | cli | cli-untrusted | cli-expired | cli-wrongeku | cli-sig
+	Chain   string `json:"chain"`             // none | cli | cli-untrusted | cli-expired | cli-wrongeku | cli-sig | cli-enc-untrusted | cli-enc-wrongeku
 	CV      string `json:"cv"`                // ok | missing | wrong-key | other-transcript | corrupt
 	Policy2 int    `json:"policy2,omitempty"` // resume: policy of the second configuration (shares the cache)
 	Resume  bool   `json:"resume,omitempty"`
@@ -46,6 +46,10 @@ func c07Chain(name string) (chain [][]byte, sig, enc *tk.Leaf) {
 		return [][]byte{pk.CliExpiredSig.DER, pk.CliEnc.DER}, pk.CliExpiredSig, pk.CliEnc
 	case "cli-wrongeku":
 		return [][]byte{pk.CliWrongEKUSig.DER, pk.CliWrongEKUEnc.DER}, pk.CliWrongEKUSig, pk.CliWrongEKUEnc
+	case "cli-enc-untrusted": // a good signing certificate beside an encryption certificate of another CA
+		return [][]byte{pk.CliSig.DER, pk.CliUntrustedEnc.DER}, pk.CliSig, pk.CliUntrustedEnc
+	case "cli-enc-wrongeku":
+		return [][]byte{pk.CliSig.DER, pk.CliWrongEKUEnc.DER}, pk.CliSig, pk.CliWrongEKUEnc
 	}
 	panic("chain " + name)
 }
@@ -257,7 +261,7 @@ func runC07(p params) error {
 		}
 		return out.Finish()
 	}
-	chains := []string{"none", "cli", "cli-untrusted", "cli-expired", "cli-wrongeku", "cli-sig"}
+	chains := []string{"none", "cli", "cli-untrusted", "cli-expired", "cli-wrongeku", "cli-sig", "cli-enc-untrusted", "cli-enc-wrongeku"}
 	cvs := []string{"missing", "wrong-key", "other-transcript", "corrupt"}
 	for _, st := range []string{"tlcp", "dtlcp"} {
 		for _, su := range []uint16{0xe053, 0xe013, 0xe051, 0xe011} {
